@@ -112,12 +112,19 @@ P('C04', claimed=True, level='other', contracts=['synth_controls'], drivers=['vf
               'advances the slot counter by as much (Control/AudioControl/LagControl._init_ugen), the '
               'invariant counter == array length, and every name entered by SynthDef._add_ir/_tr/_ar/_kr '
               'gets index = slots so far, arg_num = names so far and its rate; a lemma over these contracts '
-              'gives the tiling of a unit\'s slots by its names. Everything else (signature -> names, grouping '
+              'gives the tiling of a unit\'s slots by its names. Signature -> names is under contract too '
+              '(SynthDef._args_to_controls, any number of parameters, rates entries and prepended arguments; four '
+              'loop invariants, three comprehensions executed as maps): the metadata defaults are asked for with '
+              'aligned name/value lists shifted past the prepended arguments, and control k is entered exactly once '
+              'with the name of parameter skip+k, the adjusted default k, the rate group of the overriding rates '
+              'entry else of the annotation else control rate, and the rates entry as lag (missing -> 0, None/kr -> '
+              '0.0). Everything else (grouping '
               'by rate, reshape to argument order, name table/defaults/variants in the bytes, wiring of the '
               'body, call mapping) is checked on the emitted bytes with an independent SCgf reader for '
               'exhaustively enumerated signatures of up to 3 parameters and random ones up to 40 (bounded).'),
-  level_note=('Signature introspection (inspect) and SynthDef._build_controls (nested function with nonlocal '
-              'state) are outside the provable subset: bounded only. The defaults array and the name tables are '
+  level_note=('SynthDef._build_controls (nested function with nonlocal state) is outside the provable subset: '
+              'bounded only. In the _args_to_controls contract the inspect module, _get_valid_arg_values and '
+              '_apply_metadata_specs are ghost (uninterpreted per parameter / per position). The defaults array and the name tables are '
               'abstracted to their lengths plus the trace of appended elements.'))
 
 P('C05', claimed=True, level='other',
